@@ -16,12 +16,16 @@
            result is v itself ("floor at zero"). *)
 EXTENDS Integers
 
-CONSTANT M                       \* sequence-number modulus (65536 in the code)
+CONSTANT
+  \* sequence-number modulus (65536 in the code)
+  \* @type: Int;
+  M
 H == M \div 2
 
 Fresh == [init |-> FALSE, last |-> 0]
 
 \* value returned by Unwrap(v) in state s
+\* @type: ({init: Bool, last: Int}, Int) => Int;
 UnwrapVal(s, v) ==
   IF ~s.init THEN v
   ELSE LET lw  == s.last % M               \* residue of the previous result
@@ -32,12 +36,15 @@ UnwrapVal(s, v) ==
            ELSE IF bwd >= 0 THEN bwd
            ELSE s.last + d                 \* = v, because last + d < M
 
+\* @type: ({init: Bool, last: Int}, Int) => {init: Bool, last: Int};
 UnwrapNext(s, v) == [init |-> TRUE, last |-> UnwrapVal(s, v)]
 
 \* ---- auxiliary predicates used by the MC and trace modules ----
 Abs(x) == IF x < 0 THEN -x ELSE x
 \* a non-negative value congruent to v exists within M/2 of s.last
+\* @type: ({init: Bool, last: Int}, Int) => Bool;
 InRangeExists(s, v) == LET d == (v - (s.last % M)) % M IN d <= H \/ s.last + d - M >= 0
 \* the "floor at zero" case
+\* @type: ({init: Bool, last: Int}, Int) => Bool;
 FloorCase(s, v) == s.init /\ ~InRangeExists(s, v)
 =============================================================================
